@@ -342,6 +342,7 @@ func init() {
 				runStringShapes(ctx, "C04", byteFlags{panics: true, applyOK: true, legacy: true})
 				runNumberShapes(ctx, "C04", byteFlags{panics: true, applyOK: true})
 				runNumberShapes(ctx, "C04", byteFlags{panics: true, applyOK: true, legacy: true})
+				runRunShapes(ctx, "C04", byteFlags{panics: true, applyOK: true})
 			})
 			ctx.Phase("sizes", func() {
 				// strings / names / literals of every length 0..130 and around the powers of two, objects and arrays of
